@@ -172,6 +172,68 @@ def o_create(case):
     return labels + ["built"]
 
 
+def o_standard_fee(case):
+    """fee="standard" (the default): the amount is the library's own estimate and is not judged; what the statement says
+    about the result is: fixed outputs as given, unspecified outputs equal up to one satoshi with the larger ones first,
+    and fee() == total_in() - total_out() with nothing lost"""
+    seed, signed = case["seed"], case["route"] == "signed"
+    args, idents = [], []
+    for i, v in enumerate(case["values"]):
+        a, ident = _mk_spendable({"value": v, "form": "obj", "index": i, "script": "ring" if signed else "p2pkh"}, i, seed)
+        args.append(a)
+        idents.append(ident)
+    payables, amounts, scripts = [], [], []
+    for j, p in enumerate(case["payables"]):
+        addr, script = refvalue.p2pkh(_h("payee", seed, j)[:20])
+        scripts.append(script)
+        if p == "bare":
+            payables.append(addr)
+            amounts.append(None)
+        elif p == "tuple0":
+            payables.append((addr, 0))
+            amounts.append(None)
+        else:
+            payables.append((addr, p))
+            amounts.append(p)
+    kw = {} if case["explicit"] == 0 else {"fee": "standard"}
+    inputs = sum(case["values"])
+    labels = ["route=" + case["route"], "inputs=%s" % ("1-6" if len(args) <= 6 else "7+"), "fee-argument=" + ("default" if not kw else "standard")]
+    try:
+        if signed:
+            tx = BTC.tx_utils.create_signed_tx(args, payables, wifs=[_ring_key(j)[0] for j in range(3)], **kw)
+        else:
+            tx = BTC.tx_utils.create_tx(args, payables, **kw)
+    except ValueError:
+        return labels + ["raised"]
+    outs = [o.coin_value for o in tx.txs_out]
+    where = "%s(%d inputs of total %d, payables %s, fee=standard)" % ("create_signed_tx" if signed else "create_tx", len(args), inputs,
+                                                                      [p if isinstance(p, str) else "fixed %d" % p for p in case["payables"]])
+    if len(outs) != len(payables) or [o.script for o in tx.txs_out] != scripts:
+        _bad("create_tx:outputs-order-or-script", "%s: output scripts do not follow the payables" % where)
+    if [v for v, a in zip(outs, amounts) if a is not None] != [a for a in amounts if a is not None]:
+        _bad("create_tx:fixed-output-changed", "%s: outputs %s" % (where, outs))
+    split = [v for v, a in zip(outs, amounts) if a is None]
+    if split:
+        if max(split) - min(split) > 1 or min(split) < 1 or split != sorted(split, reverse=True):
+            _bad("create_tx:standard-fee:split-uneven", "%s: unspecified outputs %s are not equal up to one satoshi, larger first" % (where, split))
+        labels.append("k=%s" % (len(split) if len(split) < 2 else "2+"))
+        if "bare" in case["payables"] and "tuple0" in case["payables"]:
+            labels.append("both-unspecified-forms")
+    tin, tout, f = tx.total_in(), tx.total_out(), tx.fee()
+    if tin != inputs or tout != sum(outs) or f != inputs - sum(outs) or (split and f < 0):
+        _bad("tx:fee-arithmetic", "%s: total_in %d total_out %d fee() %d, outputs %s" % (where, tin, tout, f, outs))
+    return labels + ["built"]
+
+
+def s_standard_fee():
+    n_in = st.one_of(st.integers(1, 6), st.integers(7, 16))
+    payable = st.one_of(st.sampled_from(["bare", "tuple0", "bare", "tuple0"]), st.integers(1, 10**6))
+    return st.fixed_dictionaries({
+        "seed": st.integers(0, 10**6), "route": st.sampled_from(["signed", "signed", "unsigned"]), "explicit": st.sampled_from([0, 1]),
+        "values": n_in.flatmap(lambda n: st.lists(st.one_of(st.integers(10**6, 10**7), st.integers(10**6, 10**12)), min_size=n, max_size=n)),
+        "payables": st.lists(payable, min_size=1, max_size=6)})
+
+
 def nt_create(case, labels):
     return ("k=2+" in labels and "rem>0" in labels) or any(x in labels for x in ("R=k-1", "R=k", "R=k+1"))
 
@@ -537,6 +599,12 @@ SUBCHECKS = [
                   "fixed amounts, bare addresses and (address, 0), fee >= 0; built through create_tx or (1 case in 6, inputs then paying to three known keys) create_signed_tx with the WIFs; targets: R in {k-1,k,k+1}, every remainder class q*k+r, "
                   "short (R<k incl. negative), free; model = refvalue.split; also fee()/total_in()/total_out(), unspents[i]/txs_in[i] "
                   "pairing; non-trivial = k>=2 with R mod k != 0, or R in {k-1,k,k+1}"),
+    SubCheck("standard_fee_split", o_standard_fee, strategy=s_standard_fee, budget=(1500, 40000),
+             nontrivial=lambda c, l: "k=2+" in l and "built" in l,
+             rule="create_tx / create_signed_tx with the default fee=\"standard\" (1-16 inputs of 10^6..10^12 satoshi, 1-6 payables mixing "
+                  "fixed amounts, bare addresses and (address, 0)): the fee amount itself is the library's estimate and is not judged; fixed "
+                  "outputs as given, unspecified outputs equal up to one satoshi with the larger first, fee() == total_in() - total_out() "
+                  ">= 0; non-trivial = two or more unspecified outputs"),
     SubCheck("validate_unspents", o_validate, strategy=s_validate, budget=(4000, 300000),
              nontrivial=lambda c, l: "consistent" not in l,
              rule="1-5 source transactions (1-5 outputs each) filed under the reference txid, a spending transaction with 1-8 distinct "
